@@ -4,7 +4,7 @@
    events delivered in different orders and batchings (Go re-randomises map iteration in every run), and
    all runs must agree.  That the common result is the right one (oldest, then namespace/name wins) is
    what the C02/C07/C16 oracles check against the specification. *)
-From Coq Require Import List String ZArith Bool Arith.
+From Coq Require Import List String Ascii ZArith Bool Arith.
 From NGF Require Export lib.CaseLib lib.Str k8s.State k8s.Spec ngx.Lexer ngx.Eval C04.Check C17.Check.
 Import ListNotations.
 Local Open Scope string_scope.
@@ -12,7 +12,10 @@ Local Open Scope list_scope.
 
 Record run := Run { r_files : list (string * string); r_matches : matchtable; r_conds : list string }.
 
-Record case := Case { k_cluster : cluster; k_runs : list run }.
+Record case := Case {
+  k_cluster : cluster; k_runs : list run;
+  k_tls : list (string * string * Z * list string * list string)    (* TLSRoutes of the state: namespace, name, age, hostnames, sectionNames ("" = none) *)
+}.
 
 Definition runs_agree (a b : run) : list (nat * string) :=
   (if files_equal (r_files a) (r_matches a) (r_files b) (r_matches b) then [] else [(code_violation, "configuration differs between two runs")]) ++
@@ -41,6 +44,44 @@ Definition silent_losers (cs : cluster) (conds : list string) : list btp :=
     | _ => false
     end) (c_btps cs).
 
+(* class of finding D49: a map of the stream configuration has one key twice (a TLS listener's own name and a Route's); the order of
+   the two entries follows Go map iteration *)
+Fixpoint dirs_deep (fuel : nat) (ds : list dir) : list dir :=
+  match fuel with
+  | 0 => ds
+  | S f => ds ++ flat_map (fun d => match d_block d with Some b => dirs_deep f b | None => [] end) ds
+  end.
+Definition has_dup_map_key (files : list (string * string)) : bool :=
+  match parse_all files with
+  | Some pf =>
+      existsb (fun d => seqb (d_name d) "map" &&
+                 match d_block d with
+                 | Some l => negb (Nat.eqb (List.length l) (List.length (nodup string_dec (map (fun e => lower (d_name e)) l))))
+                 | None => false
+                 end) (dirs_deep 3 (flat_map snd pf))
+  | None => false
+  end.
+
+(* "TLSRoutes claiming one hostname ... the winner is the oldest ... and the losers are told so in status". Stated on the observed
+   conditions for the plain case: a TLSRoute with one hostname and one parentRef naming a listener, while an older TLSRoute (age, then
+   name) carries that hostname and is attached to that listener (names it or names no section): its entry must not be Accepted=True. *)
+Definition tls_older (a b : string * string * Z * list string * list string) : bool :=
+  let '(_, n1, t1, _, _) := a in let '(_, n2, t2, _, _) := b in older t1 "" n1 t2 "" n2.
+Definition unwarned_tls_losers (c : case) (conds : list string) : list string :=
+  flat_map (fun r2 =>
+    let '(ns2, n2, _, hs2, ss2) := r2 in
+    match hs2, ss2 with
+    | [h], [s] =>
+        if negb (seqb s "") &&
+           existsb (fun r1 => let '(_, _, _, hs1, ss1) := r1 in
+                              tls_older r1 r2 && mem_str h hs1 && (mem_str "" ss1 || mem_str s ss1)) (k_tls c) &&
+           existsb (fun x => has_prefix ("TLSRoute/" ++ ns2 ++ "/" ++ n2 ++ "|")%string x && has_suffix "|Accepted=True:Accepted" x &&
+                             existsb (fun part => has_prefix ("parent ")%string part && has_suffix ("/" ++ s ++ " by " ++ our_controller)%string part)
+                                     (split_on "|"%char x)) conds
+        then [n2] else []
+    | _, _ => []
+    end) (k_tls c).
+
 Definition complaints (c : case) : list (nat * string) :=
   match k_runs c with
   | [] => []
@@ -48,7 +89,13 @@ Definition complaints (c : case) : list (nat * string) :=
       let cs := flat_map (runs_agree r0) rest in
       (match cs with
        | [] => []
-       | _ => if has_mixed_group (k_cluster c) then [(code_known 33, "runs differ (finding D33/D19: HTTPRoute and GRPCRoute share host and path)")] else cs
+       | _ => if has_mixed_group (k_cluster c) then [(code_known 33, "runs differ (finding D33/D19: HTTPRoute and GRPCRoute share host and path)")]
+              else if has_dup_map_key (r_files r0) then [(code_known 49, "runs differ (finding D49: a stream map with one key twice, in map-iteration order)")]
+              else cs
+       end) ++
+      (match unwarned_tls_losers c (r_conds r0) with
+       | [] => []
+       | _ => [(code_violation, "a TLSRoute that lost its hostname to an older TLSRoute is reported Accepted")]
        end) ++
       (match silent_losers (k_cluster c) (r_conds r0) with
        | [] => []
